@@ -277,6 +277,43 @@ def oracle_string(s, ff, fi, res, label='string'):
     return rf, ri, out
 
 
+BLANK_VALUES = ['default', None, BLANK, 7, -1.5, 'x', 'default', 0, None]
+
+
+def blank_sequence(s, ff, fi):
+    """the same field text read several times in one process with different blank values: "blank fields yield the
+    caller's blank value" on every call, whatever was read before; a non-blank field does not depend on it"""
+    out = []
+    for fname, f, dflt in (('float', ff, 0.0), ('int', fi, 0)):
+        first = None
+        for k, b in enumerate(BLANK_VALUES):
+            try:
+                r = f(s) if b == 'default' else f(s, b)
+            except Exception as e:
+                out.append(dict(key='%s-raises:%s' % (fname, type(e).__name__), what='fortran_%s(%r, blank value %r) raises %s' % (fname, s, b, type(e).__name__),
+                                case={'fn': fname, 's': s, 'blank_sequence': True}))
+                break
+            if s.strip() == '':
+                want = dflt if b == 'default' else b
+                same = (r is want) or (type(r) is type(want) and not isinstance(want, (str, type(None))) and want is not BLANK and r == want)
+                if not same:
+                    out.append(dict(key='%s-blank-sequence' % fname,
+                                    what='call %d in one process: fortran_%s(%r%s) is %r, not the blank value %r (earlier calls passed %r)'
+                                         % (k + 1, fname, s, '' if b == 'default' else ', <blank value>', 'BLANK' if r is BLANK else r,
+                                            'BLANK' if want is BLANK else want, ['BLANK' if x is BLANK else x for x in BLANK_VALUES[:k]]),
+                                    case={'fn': fname, 's': s, 'blank_sequence': True}))
+                    break
+            else:
+                c = canon_real(r)
+                if first is None: first = c
+                elif c != first:
+                    out.append(dict(key='%s-depends-on-blank-value' % fname,
+                                    what='fortran_%s(%r) is %s with one blank value and %s with another' % (fname, s, first, c),
+                                    case={'fn': fname, 's': s, 'blank_sequence': True}))
+                    break
+    return out
+
+
 def run(ctx, scale=1.0):
     import importlib, fixed_format_file as fff
     importlib.reload(fff)
@@ -307,6 +344,12 @@ def run(ctx, scale=1.0):
 
     f1 = res.facet('fortran_num')
     f2 = res.facet('py_num')
+    f3 = res.facet('blank_value_sequence')
+    seq_strings = [' ' * w for w in range(0, 41)] + ['\n', '\t', ' \n', '     \n', '\r\n'] + [t for t, _, k in strings[:400] if k != 'random']
+    for t in seq_strings:
+        f3['cases'] += 1
+        v = blank_sequence(t, ff, fi)
+        res.violations += v
     # real code + oracle
     real = []
     for s, exp, kind in strings:
@@ -403,6 +446,9 @@ def replay(ctx, payload):
     if 's' not in c:
         return False, 'replay file names what no longer checks: %s' % payload.get('broken')
     s = c['s']
+    if c.get('blank_sequence'):
+        v = blank_sequence(s, fff.fortran_float, fff.fortran_int)
+        return bool(v), '\n'.join(x['what'] for x in v) or 'every call returns the blank value it was given'
     rf, ri, viol = oracle_string(s, fff.fortran_float, fff.fortran_int, None)
     txt = 'fortran_float(%r) -> %s ; fortran_int(%r) -> %s' % (s, rf, s, ri)
     bad = bool(viol)
